@@ -7,6 +7,7 @@ import hashlib
 import itertools
 import json
 import math
+import random
 import pathlib
 import warnings
 
@@ -67,10 +68,12 @@ class Stub:
         return k in self.cols
 
 
-def stub_case(rng):
+def stub_case(rng, force_kind=None, n_override=None):
     """integer-valued approach segment (x decreasing), a model-like force, a 'fit' that deviates from it
     by trends, bumps and spikes; a retract segment of junk"""
     n = rng.choice([30, 60, 90, 140, 220])
+    if n_override:
+        n = n_override
     x = np.arange(n, 0, -1, dtype=float) * rng.choice([1, 3]) - rng.choice([0, 7, 40])
     cp_i = int(n * rng.uniform(0.15, 0.85))
     if rng.random() < 0.25:
@@ -92,8 +95,23 @@ def stub_case(rng):
     fit = np.round(amp * (d / max(d.max(), 1)) ** rng.choice([1.0, 1.5, 2.0]))
     noise = np.array([rng.choice([0, 0, 1, -1, 2, -3]) for _ in range(n)], dtype=float)
     y = fit + noise * rng.choice([0, 1, 5])
-    kind = rng.choice(["plain", "spikes", "tilt", "bump", "decreasing", "flat", "drop-at-end"])
-    if kind == "spikes":
+    kind = rng.choice(["plain", "spikes", "tilt", "bump", "decreasing", "flat", "drop-at-end", "ringing"])
+    if force_kind:
+        kind = force_kind
+    if kind == "ringing":
+        # an electronic ringing artefact in the indentation part: one sample dips (or jumps) while its neighbours on
+        # both sides overshoot in the other direction
+        same_ = rng.random() < 0.5            # neighbours overshoot by the amplitude of the dip itself
+        if rng.random() < 0.6:
+            y = fit.copy()                    # an otherwise perfect fit: the artefact is all there is in the residuals
+        a0 = rng.choice([-1, 1]) * rng.choice([30.0, 120.0, 600.0])
+        for _ in range(rng.randint(1, 4)):
+            c0 = rng.randrange(min(cp_i + 3, n - 3), n - 2) if cp_i + 3 < n - 2 else rng.randrange(2, n - 2)
+            y[c0] += a0
+            for o_ in (1, 2):
+                y[c0 - o_] -= a0 * (1.0 if same_ else rng.choice([0.5, 0.75, 1.0]))
+                y[c0 + o_] -= a0 * (1.0 if same_ else rng.choice([0.5, 0.75, 1.0]))
+    elif kind == "spikes":
         for _ in range(rng.randint(1, 8)):
             y[rng.randrange(n)] += rng.choice([-1, 1]) * rng.choice([30, 200])
     elif kind == "tilt":
@@ -392,8 +410,14 @@ def values_tie(ctx, count):
     rng = ctx.rng
     ws = {s: gauss_weights(s) for s in (1, 2, 5, 11)}
     lines, expect = [], []
-    for i in range(count):
-        meta, stub, (x, y, fit, cp) = stub_case(rng)
+    g_dir = random.Random(ctx.seed * 4099 + 3)
+    for i in range(count + 6):
+        if i < count:
+            meta, stub, (x, y, fit, cp) = stub_case(rng)
+        else:
+            # directed: long, otherwise clean datasets with a ringing artefact (the spike features only respond once
+            # the artefact stands out of the residual scatter of several hundred samples)
+            meta, stub, (x, y, fit, cp) = stub_case(g_dir, force_kind="ringing", n_override=g_dir.choice([450, 700]))
         inst = IndentationFeatures(stub)
         base = {"op": "feat", "x": [q(v) for v in x], "y": [q(v) for v in y], "fit": [q(v) for v in fit], "cp": q(cp),
                 **{f"w{s}": [q(v) for v in w] for s, w in ws.items()}}
@@ -448,6 +472,28 @@ def values_tie(ctx, count):
                     ctx.violation(f"depends-on-other-setting:{diff[0][0]}", f"the same approach segment, fit and contact "
                                   f"point with {tlabel}: {diff[0][0]} = {diff[0][2]!r} instead of {diff[0][1]!r}",
                                   {"input": {**meta, "twin": tlabel, "x": [float(t) for t in x], "y": [float(t) for t in y],
+                                             "fit": [float(t) for t in fit]}})
+            # the retract twin once more with the fitted contact point just outside the approach range (above its
+            # first or below its last sample): against the same data without that retract ramp
+            for cp_out in (float(np.max(x)) + 1.0, float(np.min(x)) - 1.0):
+                pair = []
+                for cols in (stub.cols, t3.cols):
+                    st_ = Stub(cols["tip position"], cols["force"], cols["fit"], cols["segment"], cp_out)
+                    try:
+                        pair.append(IndentationFeatures.compute_features(st_, ret_names=True))
+                    except BaseException as e:  # noqa
+                        pair.append(repr(e))
+                if isinstance(pair[0], str) or isinstance(pair[1], str):
+                    diff = [] if isinstance(pair[0], str) and isinstance(pair[1], str) else \
+                        [("raises", str(pair[0])[:80], str(pair[1])[:80])]
+                else:
+                    diff = [(n_, a_, b_) for n_, a_, b_ in zip(pair[0][1], pair[0][0], pair[1][0])
+                            if not same(a_, b_, exact=True)]
+                if diff:
+                    ctx.violation(f"depends-on-retract:{diff[0][0]}", "the same approach segment and fit, contact point "
+                                  f"{cp_out!r} outside the approach range, with and without a retract segment that covers it: "
+                                  f"{diff[0][0]} = {diff[0][2]!r} instead of {diff[0][1]!r}",
+                                  {"input": {**meta, "cp": cp_out, "x": [float(t) for t in x], "y": [float(t) for t in y],
                                              "fit": [float(t) for t in fit]}})
         # the same dataset in SI-like magnitudes (metres, newtons): the value clauses of the property once more, on the
         # public entry point (the integer-valued original keeps the model tie exact but saturates the logarithms)
@@ -504,6 +550,46 @@ def values_tie(ctx, count):
             want = float("nan")
         if np.isnan(v) or not math.isclose(v, want, rel_tol=1e-8, abs_tol=1e-10):
             ctx.disagree(case, v, want, f"{name}: implementation and Lean model (core {core!r}) differ")
+            search_failing_input(ctx, name, case["kind"])
+
+
+SEARCHED = set()
+
+
+def search_failing_input(ctx, name, kind, budget=1500):
+    """the tie with the Lean model broke for feature `name` on a dataset of this kind: look for a dataset of the same
+    kind on which the PROPERTY fails on the implementation (value clauses; own random stream)"""
+    from nanite.rate.features import IndentationFeatures
+    if (name, kind) in SEARCHED:
+        return
+    SEARCHED.add((name, kind))
+    g = random.Random(ctx.seed * 7717 + len(SEARCHED))
+    tried = 0
+    for _ in range(budget * 8):
+        if kind.startswith("ringing"):
+            meta, stub, (x, y, fit, cp) = stub_case(g, force_kind="ringing", n_override=g.choice([220, 450, 700]))
+        else:
+            meta, stub, (x, y, fit, cp) = stub_case(g)
+        if meta["kind"] != kind:
+            continue
+        tried += 1
+        if tried > budget:
+            break
+        if meta["kind"].startswith("flat") or float(np.max(y)) <= 0:
+            continue
+        with warnings.catch_warnings(), np.errstate(all="ignore"):
+            warnings.simplefilter("ignore")
+            try:
+                v = float(getattr(IndentationFeatures(stub), name)())
+            except BaseException:  # noqa
+                continue
+        before = len(ctx.violations) if hasattr(ctx, "violations") else None
+        judge_values(ctx, meta, [name], [v], True,
+                     {"input": {**meta, "x": [float(t) for t in x], "y": [float(t) for t in y],
+                                "fit": [float(t) for t in fit], "feature": name, "found_by": "search after a broken tie"}})
+        if before is not None and len(ctx.violations) > before:
+            break
+    ctx.dist[f"search-after-broken-tie:{name}:{kind}"] = tried
 
 
 def run(ctx):
